@@ -183,7 +183,11 @@ def handle (op : String) (args : List String) : Option String :=
   -- stmt schema [kv×4] stmt rnd  → the statement as forwarded
   | "stmt", [_, sch, pub, privs, sym, syms, st, rnd] => do
       let kv ← Driver.C01.parseKV pub privs sym syms
-      pure (showStmt (forwardStmt C kv (← parseSchema sch) (← parseStmt st) (← ofHex rnd)))
+      pure ("ok " ++ showStmt (forwardStmt C kv (← parseSchema sch) (← parseStmt st) (← ofHex rnd)))
+  -- mystmt schema [kv×4] stmt rnd → the statement as the MySQL query encryptor forwards it (literals by value)
+  | "mystmt", [sch, pub, privs, sym, syms, st, rnd] => do
+      let kv ← Driver.C01.parseKV pub privs sym syms
+      pure ("ok " ++ showStmt (forwardStmtMy C kv (← parseSchema sch) (← parseStmt st) (← ofHex rnd)))
   -- bind schema [kv×4] stmt params order rnd → same | changed <values>
   | "bind", [sch, pub, privs, sym, syms, st, ps, order, rnd] => do
       let kv ← Driver.C01.parseKV pub privs sym syms
